@@ -35,3 +35,4 @@ def run(prog, rep):
     _ru6.run_scale_positions(prog, rep)
     from ..rules import r_flow as _rfa
     _rfa.run_aligned(prog, rep)
+    _ru6.run_no_static_state(prog, rep)
